@@ -34,14 +34,14 @@ RULE = (
     "CREATE, DELETE, RENAME incl. a subtree, SUBSCRIBE, pack with a lowered limit) over mailboxes inbox/mb/mb/sub, plus two "
     "special kinds: first start-up on an empty directory and start-up on a database left at schema version k (k = 0..6, built by "
     "running the first k migrations). For every history EVERY crash point is enumerated: a counting dry run numbers each durable "
-    "effect (DB statement/commit, file-system primitive, file write/flush/close) and for k = 1..K a forked child replays the "
+    "effect (statement/commit handed to SQLite; os.rename/remove/link/mkdir/rmdir/utime/truncate and open-for-writing via an audit hook; flush/close/unbuffered write of writable files via sys.monitoring) and for k = 1..K a forked child replays the "
     "history and os._exit()s just before effect k. Oracle (fresh forked process on the crashed directory): the server starts; "
     "LIST works and every selectable mailbox can be selected; with j = number of commands acknowledged before the crash, every "
     "mailbox state lies 'between' snapshot S_j-1 and S_j of the dry run (messages and flags untouched by the in-flight command "
     "are exactly as acknowledged; its own effects may be absent, partial or complete); every (mailbox, UIDVALIDITY, UID) that "
     "was revealed to the client still names the same message; UIDNEXT is above every revealed UID. Non-trivial = a crash point "
     "strictly inside a mutating command (between two of its effects) or inside start-up/migration; distinct = distinct "
-    "(history hash, k)."
+    "(history hash, k). Crash points inside the pack of a folder are not enumerated while the known finding pack-not-crash-safe is open (counted under excluded_by_known_finding; its replay runs them)."
 )
 ASSUMPTIONS = [
     "a crash is a process kill between Python-visible effects; torn writes inside one write(2), power loss and fsync ordering are not modelled",
@@ -111,13 +111,37 @@ def _install_counter(state):
 
     mon = sys.monitoring
     tool = 4
-    targets = {os.rename, os.remove, os.unlink, os.utime, os.mkdir, os.rmdir, os.symlink, os.link, os.replace, os.truncate, os.makedirs, os.chmod}
+    targets = set()  # file-system primitives are counted by the audit hook below (it also sees calls made through functools.partial / an executor)
+    audit_mut = {"os.rename", "os.remove", "os.link", "os.mkdir", "os.rmdir", "os.truncate", "os.utime", "os.chmod", "os.symlink"}
     method_names = {"write", "flush", "close", "truncate", "writelines"}
 
-    def effect():
+    show = bool(os.environ.get("C11_EFFECTS"))
+
+    def effect(desc=""):
         if not state["on"]:
             return
         state["n"] += 1
+        if show:
+            os.write(2, f"effect {state['n']}: {desc}\n".encode())
+        if state["crash_at"] is None:
+            # dry run: remember which effects belong to a pack of a folder (known finding pack-not-crash-safe)
+            f = sys._getframe(1)
+            depth = 0
+            while f is not None and depth < 60:
+                if f.f_code.co_name == "_pack_if_necessary":
+                    f2 = sys._getframe(1)
+                    inner = False
+                    for _ in range(8):
+                        if f2 is None:
+                            break
+                        if f2.f_code.co_name == "pack" and f2.f_code.co_filename.endswith("mailbox.py"):
+                            inner = True
+                            break
+                        f2 = f2.f_back
+                    state.setdefault("pack", []).append((state["n"], inner, f.f_lineno))
+                    break
+                f = f.f_back
+                depth += 1
         if state["crash_at"] is not None and state["n"] == state["crash_at"]:
             os._exit(77)
 
@@ -126,21 +150,60 @@ def _install_counter(state):
             hit = callee in targets
         except TypeError:
             hit = False
+        f = None
         if not hit:
             nm = getattr(callee, "__name__", "")
-            if nm in method_names and isinstance(getattr(callee, "__self__", None), io.IOBase):
-                f = callee.__self__
+            if nm in method_names:
+                # bound builtin method (callee.__self__) or, for `f.write(..)` call sites, the
+                # unbound method descriptor with the file object as first argument
+                f = getattr(callee, "__self__", None)
+                if not isinstance(f, io.IOBase):
+                    f = arg0 if isinstance(arg0, io.IOBase) else None
+                if f is None:
+                    return
+                if nm in ("write", "writelines") and not isinstance(f, io.RawIOBase):
+                    return  # buffered: nothing reaches the file before flush()/close()
                 try:
-                    if f.fileno() in (0, 1, 2, state.get("logfd", -1)):
+                    if f.closed or f.fileno() in (0, 1, 2, state.get("logfd", -1)):
                         return
                     if not (f.writable() if hasattr(f, "writable") else True):
+                        return
+                    name = getattr(f, "name", None)
+                    if isinstance(name, (str, bytes)) and not os.fsdecode(name).startswith(state.get("root", "/")):
                         return
                 except Exception:
                     return
                 hit = True
         if hit:
-            effect()
+            if show:
+                nm = getattr(callee, "__name__", "?")
+                tgt = getattr(f, "name", None) if f is not None else arg0
+                effect(f"{nm} {tgt!r}")
+            else:
+                effect()
 
+    wr = os.O_WRONLY | os.O_RDWR | os.O_CREAT | os.O_TRUNC | os.O_APPEND
+
+    def audit(event, args):
+        # opening a file for writing creates / truncates it: a durable effect of its own
+        if event == "open" and state["on"]:
+            path, mode, flags = args
+            if isinstance(flags, int) and flags & wr and isinstance(path, (str, bytes)):
+                ps = os.fsdecode(path)
+                if ps.startswith(state.get("root", "/")) and not ps.endswith(("asimap.db", "-journal", "-wal")):
+                    effect(f"open {ps!r} flags={flags:#o}")
+
+    def audit2(event, args):
+        if event in audit_mut and state["on"]:
+            path = args[0] if args else None
+            if isinstance(path, (str, bytes)):
+                ps = os.fsdecode(path)
+                if os.path.isabs(ps) and not ps.startswith(state.get("root", "/")):
+                    return
+            effect(f"{event} {path!r}")
+
+    sys.addaudithook(audit)
+    sys.addaudithook(audit2)
     mon.use_tool_id(tool, "c11-crash")
     mon.register_callback(tool, mon.events.CALL, on_call)
     mon.set_events(tool, mon.events.CALL)
@@ -174,10 +237,10 @@ def run_history(trace, root_dir: str, crash_at, logfd: int, snap_dir=None):
     """Executed inside a forked child.  Returns the number of effects (dry run)."""
     from ..driver import World, tagged_message
 
-    state = {"n": 0, "crash_at": crash_at, "on": False, "logfd": logfd, "marks": []}
+    state = {"n": 0, "crash_at": crash_at, "on": False, "logfd": logfd, "marks": [], "root": root_dir}
     _install_counter(state)
     w = World(rseed=trace.get("rseed", 0), pack_limit=trace.get("pack_limit"), root_dir=root_dir)
-    w.loop.effect_hook = lambda kind, fn: state["effect"]()
+    w.loop.effect_hook = lambda kind, fn: state["effect"](f"{kind} {getattr(fn, '__name__', fn)!r}"[:160])
     kind = trace.get("kind", "history")
     ncmd = [0]
 
@@ -296,7 +359,7 @@ def run_history(trace, root_dir: str, crash_at, logfd: int, snap_dir=None):
         w.run(main(), budget=3_000_000)
     finally:
         state["on"] = False
-    log({"done": True, "effects": state["n"], "marks": state["marks"]})
+    log({"done": True, "effects": state["n"], "marks": state["marks"], "pack": state.get("pack", [])})
     return state["n"]
 
 
@@ -313,6 +376,7 @@ def read_state(root_dir: str, rseed: int):
         except BaseException as e:  # noqa
             out["boot"] = f"{type(e).__name__}: {e}"
             return
+        nsess = [0]
         o = w.session("o")
         r = await o.cmd(b'LIST "" "*"')
         if not r.ok:
@@ -335,8 +399,17 @@ def read_state(root_dir: str, rseed: int):
                 out["boxes"][key] = {"error": "STATUS answered only by the watchdog"}
                 continue
             info = await observe_mailbox(o, quote(nm))
+            if not o.alive:
+                nsess[0] += 1
+                o = w.session(f"o{nsess[0]}")
             if info is None:
                 out["boxes"][key] = {"error": "cannot be selected"}
+                continue
+            if info.get("fetch_status") not in (None, "OK"):
+                out["boxes"][key] = {"error": f"cannot be read: FETCH 1:* answered {info.get('fetch_status')} (EXISTS {info['exists']}, {len(info['msgs'])} message(s) returned)"}
+                continue
+            if (info["exists"] or 0) != len(info["msgs"]):
+                out["boxes"][key] = {"error": f"cannot be read: EXISTS {info['exists']} but FETCH 1:* returned {len(info['msgs'])} message(s)"}
                 continue
             if info.get("select") is not None and (info["select"].hang or info["select"].watchdog):
                 out["boxes"][key] = {"error": "SELECT answered only by the watchdog"}
@@ -480,8 +553,7 @@ def between(prev, nxt, got, what, inflight=""):
     for b in sorted(names):
         p, n, g = prev["boxes"].get(b), nxt["boxes"].get(b), got["boxes"].get(b)
         if g is not None and "error" in g:
-            out.append(("C11.recover.unselectable", f"{what}: mailbox {b!r}: {g['error']}"))
-            continue
+            continue  # reported by the caller
         if g is None:
             if p is not None and n is not None and "error" not in p and "error" not in n:
                 out.append(("C11.lost.mailbox", f"{what}: mailbox {b!r} existed before and after the in-flight command but is gone"))
@@ -498,17 +570,22 @@ def between(prev, nxt, got, what, inflight=""):
         # message (checked separately).  Messages are compared by tag, as multisets.
         from collections import Counter
 
-        pc = Counter(m[1] for m in p["msgs"])
-        nc = Counter(m[1] for m in n["msgs"])
-        gc = Counter(m[1] for m in g["msgs"])
+        # A message without its X-VF-Tag header is a torn file: the message of an in-flight
+        # APPEND/COPY/MOVE (or of a delivery the harness itself was making) whose bytes never reached
+        # the disk.  It is "partial", which the property allows, so it takes no part in the comparison.
+        pc = Counter(m[1] for m in p["msgs"] if m[1] is not None)
+        nc = Counter(m[1] for m in n["msgs"] if m[1] is not None)
+        gc = Counter(m[1] for m in g["msgs"] if m[1] is not None)
         for tag in sorted(set(pc) | set(nc) | set(gc), key=str):
             lo, hi = min(pc[tag], nc[tag]), max(pc[tag], nc[tag])
             if re.match(r"(UID )?(COPY|MOVE) ", inflight):
                 hi += 1  # partial COPY/MOVE: the copy may exist while the original is still there
             if gc[tag] < lo:
                 out.append(("C11.lost.message", f"{what}: {b!r} holds {gc[tag]} cop{'y' if gc[tag] == 1 else 'ies'} of message {tag}; {lo} acknowledged and not removed by the in-flight command"))
-            elif gc[tag] > hi:
-                out.append(("C11.phantom.message", f"{what}: {b!r} holds {gc[tag]} copies of message {tag}; at most {hi} were ever added"))
+            elif gc[tag] > hi and hi == 0:
+                # (an extra copy of a message that is still there - e.g. a kill between the link and
+                #  the unlink of a rename - is not something the property speaks about)
+                out.append(("C11.phantom.message", f"{what}: {b!r} holds {gc[tag]} cop{'y' if gc[tag] == 1 else 'ies'} of message {tag}, which was expunged (or never there) in the acknowledged state and is not added by the in-flight command"))
             elif pc[tag] == 1 and nc[tag] == 1 and gc[tag] == 1:
                 pf = next(tuple(m[2]) for m in p["msgs"] if m[1] == tag)
                 nf = next(tuple(m[2]) for m in n["msgs"] if m[1] == tag)
@@ -519,6 +596,37 @@ def between(prev, nxt, got, what, inflight=""):
         if any(b2 <= a2 for a2, b2 in zip(gu, gu[1:])):
             out.append(("C11.uid.order", f"{what}: uids of {b!r} are not ascending: {gu}"))
     return out
+
+
+PACK_FINDING = "pack-not-crash-safe"
+
+
+def pack_windows(pack):
+    """Crash points at which a pack of a folder is half done: after the first link/rename of
+    mailbox.MH.pack() up to and including the final commit of Mailbox._pack_if_necessary()."""
+    lines = [ln for _, inner, ln in pack if inner]
+    if not lines:
+        return []
+    lpack = lines[0]
+    wins, cur = [], None
+    for n, inner, ln in sorted(pack):
+        if inner:
+            if cur is None or cur[2]:
+                cur = [n, n, False]
+                wins.append(cur)
+            else:
+                cur[1] = n
+        elif ln > lpack and cur is not None:
+            cur[1] = n
+            cur[2] = True
+    return [(a, b) for a, b, _ in wins]
+
+
+def finding_matches(finding, vj):
+    """pack-not-crash-safe matches only violations whose crash point lies inside a pack window."""
+    if finding.get("trigger") == "crash-inside-pack":
+        return (vj.get("sig") or "").startswith("pack-window:") and vj.get("clause") in ([finding.get("clause")] + list(finding.get("clauses", [])))
+    return vj.get("clause") == finding.get("clause")
 
 
 def execute(trace) -> CaseResult:
@@ -567,12 +675,24 @@ def execute(trace) -> CaseResult:
             S[i] = stt
         if kind != "history":
             S.setdefault(0, {"boot": "ok", "boxes": {}, "list": {}})
+        windows = pack_windows((done or {}).get("pack", []))
         ks = list(range(1, K + 1))
         if trace.get("stride", 1) > 1:
             ks = [k for k in ks if k % trace["stride"] == trace.get("offset", 0) % trace["stride"]]
             res.labels.append(f"stride:{trace['stride']}")
+        in_window = lambda k: any(a < k <= b for a, b in windows)  # noqa: E731
         if trace.get("only_k"):
             ks = [trace["only_k"]]
+        elif trace.get("pack_window_only"):
+            ks = [k for k in ks if in_window(k)]
+        elif PACK_FINDING in open_ids(ID):
+            # open known finding: a kill inside the pack of a folder; those crash points are not
+            # enumerated (the replay replays/C11/open-pack-not-crash-safe.json shows one of them)
+            n0 = len(ks)
+            ks = [k for k in ks if not in_window(k)]
+            if len(ks) < n0:
+                res.excluded.append(PACK_FINDING)
+                res.labels.append("pack-window-points-skipped")
         res.labels.append(kind)
         npoints = 0
         # ---- every crash point ----------------------------------------------------------
@@ -600,6 +720,8 @@ def execute(trace) -> CaseResult:
             c3, got = fork_run(lambda cdir=cdir: read_state(cdir, trace.get("rseed", 0)), timeout=200)
             rmtree(cdir)
             sig = (acks[j]["line"].split(" ")[0] if j < nacks else "after-last") if kind == "history" else kind
+            if in_window(k):
+                sig = "pack-window:" + sig
             if got is None:
                 v("C11.recover.hang", f"{what}: the server did not come up / answer within the guard (exit {c3})", k, sig)
                 continue
@@ -626,7 +748,7 @@ def execute(trace) -> CaseResult:
                 if not g or "error" in g or g.get("uv") != uv:
                     continue
                 for m in g["msgs"]:
-                    if m[0] == uid and m[1] != tag:
+                    if m[0] == uid and m[1] != tag and m[1] is not None:
                         v("C11.uid.rebound", f"{what}: ({b}, UIDVALIDITY {uv}, UID {uid}) was revealed as {tag} and now names {m[1]}", k, sig)
                 if g.get("uidnext") is not None and g["uidnext"] <= uid:
                     v("C11.uidnext.low", f"{what}: UIDNEXT of {b!r} is {g['uidnext']}, not above the revealed UID {uid}", k, sig)
